@@ -13,6 +13,8 @@ func TestMain(m *testing.M) {
 		"C14stdio": C14stdio,
 		"C07sio":   C07sio,
 		"C12sio":   C12sio,
+		"C05sio":   C05sio,
+		"C10sio":   C10sio,
 		"C15":      C15,
 		"C13sio":   C13sio,
 		"C09sio":   C09sio,
